@@ -77,6 +77,7 @@ pub fn dispatch(which: &str, v: &Value, case: &Value) -> Value {
         "c10_atomic" => c10_atomic(v),
         "c18_perm" => c18_perm(v),
         "c18_sep" => c18_sep(v),
+        "c18_redirect_gate" => c18_redirect_gate(v),
         "c01_tok" => c01_tok(v),
         "c01_star" => c01_star(v),
         "c01_l1c" => c01_l1c(v),
@@ -180,6 +181,33 @@ fn c18_perm(v: &Value) -> Value {
     let u1 = PermissionMask::from_bits(r | f);
     let union_ok = acc.is_injectable_by(u1) && u1.is_injectable_by(acc) && (PermissionMask::from_bits(r) | PermissionMask::from_bits(f)).is_injectable_by(u1) && u1.is_injectable_by(PermissionMask::from_bits(r) | PermissionMask::from_bits(f));
     json!({"reproduced": got != want || !union_ok, "got": got, "want": want, "union_ok": union_ok})
+}
+/// public API: a storage holding one resource of the given kind and permission, asked for as a redirect
+fn c18_redirect_gate(v: &Value) -> Value {
+    use adblock::resources::{MimeType, Resource, ResourceType};
+    let (p, k) = (u(&v["p"]) as u8, u(&v["k"]) as u8);
+    let kind = match k {
+        0 => ResourceType::Template,
+        1 => ResourceType::Mime(MimeType::TextCss),
+        2 => ResourceType::Mime(MimeType::ImageGif),
+        3 => ResourceType::Mime(MimeType::TextHtml),
+        4 => ResourceType::Mime(MimeType::ApplicationJavascript),
+        5 => ResourceType::Mime(MimeType::ApplicationJson),
+        6 => ResourceType::Mime(MimeType::AudioMp3),
+        7 => ResourceType::Mime(MimeType::VideoMp4),
+        8 => ResourceType::Mime(MimeType::ImagePng),
+        9 => ResourceType::Mime(MimeType::TextPlain),
+        10 => ResourceType::Mime(MimeType::TextXml),
+        11 => ResourceType::Mime(MimeType::FnJavascript),
+        _ => ResourceType::Mime(MimeType::Unknown),
+    };
+    // base64 of "function f() {}" — valid for every textual kind, and for fn/javascript a parsable definition
+    let res = Resource { name: "r".into(), aliases: vec![], kind, content: "ZnVuY3Rpb24gZigpIHt9".into(), dependencies: vec![], permission: PermissionMask::from_bits(p) };
+    let mut st = ResourceStorage::default();
+    let added = st.add_resource(res).is_ok();
+    let got = st.get_redirect_resource("r").is_some();
+    let want = p == 0 && k != 0 && k != 11;
+    json!({"reproduced": added && got != want, "added": added, "got": got, "want": want, "p": p, "k": k})
 }
 /// the separator scan is private; lifted through a `+js(...)` cosmetic rule whose argument list is the string
 fn c18_sep(v: &Value) -> Value {
